@@ -32,7 +32,7 @@ n_caught = sum(1 for r in rows if "**not caught**" not in r)
 text = f"{len(rows)} confirmed seeded changes, {n_caught} reported by at least one check (exit 1 with a VIOLATION line naming the construct), " \
        f"{len(rows) - n_caught} not reported.\n\n" + table
 design = (V / "DESIGN.md").read_text()
-design = re.sub(r"<!-- SEEDS:BEGIN -->.*<!-- SEEDS:END -->", "<!-- SEEDS:BEGIN -->\n" + text + "\n<!-- SEEDS:END -->", design, flags=re.S)
+design = re.sub(r"<!-- SEEDS:BEGIN -->.*<!-- SEEDS:END -->", lambda _m: "<!-- SEEDS:BEGIN -->\n" + text + "\n<!-- SEEDS:END -->", design, flags=re.S)
 pm = V / "probes/MATRIX.json"
 if pm.exists():
     pmx = json.loads(pm.read_text())
@@ -48,6 +48,6 @@ if pm.exists():
         first = next((l.strip(" #*-")[:120] for l in notes.splitlines() if len(l.strip(" #*-")) > 25), "")
         prow.append(f"| {probe} | {first} | {'silent (all 20 exit 0)' if not alarms and not und else ('ALARM ' + ' '.join(alarms) if alarms else '') + (' undecided: ' + ','.join(und) if und else '')} |")
     ptext = f"{len(prow)} behaviour-preserving refactorings (each passes the unedited suite).\n\n| probe | refactoring | result |\n|---|---|---|\n" + "\n".join(prow)
-    design = re.sub(r"<!-- PROBES:BEGIN -->.*<!-- PROBES:END -->", "<!-- PROBES:BEGIN -->\n" + ptext + "\n<!-- PROBES:END -->", design, flags=re.S)
+    design = re.sub(r"<!-- PROBES:BEGIN -->.*<!-- PROBES:END -->", lambda _m: "<!-- PROBES:BEGIN -->\n" + ptext + "\n<!-- PROBES:END -->", design, flags=re.S)
 (V / "DESIGN.md").write_text(design)
 print(n_caught, "of", len(rows))
